@@ -82,10 +82,14 @@ def c18_jobs(tier, seed):
     thorough = tier == "thorough"
     jobs = []
     lim = 70 if not thorough else None
-    for wi, mk in enumerate(WORLDS):
+    for wi, mk in enumerate(WORLDS + [W4]):
         w, probes = mk()
         nm = len([m for m in w["methods"] if not m.get("late")])
         trig = probes[0]
+        if mk is W4:
+            # the resolution that fails is the one for K3; the first use of K3 afterwards is a call_next(K3 instance)
+            # from the K2 method (probe [2] comes before probe [3])
+            trig = probes[1]
         base = {"world": w, "probes": probes, "trigger": trig}
         # natural offenders, first build, every registration position
         for kind in ("misuse", "conflict", "kwclash", "nosource"):
@@ -94,7 +98,7 @@ def c18_jobs(tier, seed):
             jobs.append(dict(base, id=f"C18-w{wi}-rebuild-{kind}", phase="rebuild", offender={"kind": kind, "at": nm, "cls": 2}))
         # raising user hook on its n-th invocation during a cache miss / first build
         for n in range(1, 7):
-            jobs.append(dict(base, id=f"C18-w{wi}-miss-hook-{n}", phase="miss", warm=probes[1],
+            jobs.append(dict(base, id=f"C18-w{wi}-miss-hook-{n}", phase="miss", warm=(probes[2] if mk is W4 else probes[1]),
                              offender={"kind": "hookraise", "at": nm, "n": n, "members": [2, 3], "prio": 1}))
             jobs.append(dict(base, id=f"C18-w{wi}-first-hook-{n}", phase="first",
                              offender={"kind": "hookraise", "at": 0, "n": n, "members": [2, 3], "prio": 1}))
@@ -106,7 +110,7 @@ def c18_jobs(tier, seed):
         # injected faults: every hook point, sampled / all executed lines
         for phase in ("first", "rebuild", "miss"):
             extra = {"extra": "mX"} if phase == "rebuild" else {}
-            warm = {"warm": probes[1]} if phase == "miss" else {}
+            warm = {"warm": (probes[2] if mk is W4 else probes[1])} if phase == "miss" else {}
             jobs.append(dict(base, id=f"C18-w{wi}-{phase}-hooks", phase=phase, inject={"kind": "hook", "n": "sweep"}, **extra, **warm))
             # split the line sweep into shards so that the pool can spread it
             shards = 4 if not thorough else 16
